@@ -60,7 +60,7 @@ def beam_lineload_rule(ctx):
                     nPe=nPe, Ne=1, connect=XArray((1, nPe), conn),
                     Get_Elements_Nodes=lambda nodes, exclusively=False, **k: (log.update(exclusively=exclusively), XArray((1,), [0]))[1],
                     Get_Elements_Tag=lambda name: XArray((1,), [0]),
-                    Get_GaussCoordinates_e_pg=lambda mt, el=None: Opaque("coord"),
+                    Get_GaussCoordinates_e_pg=lambda mt, el=None: XArray((1, nPg, 3), [Poly.var(f"gx{p}{k}") for p in range(nPg) for k in range(3)]),
                     Get_weightedJacobian_e_pg=lambda mt=None: XArray((1, nPg), list(wJ)),
                     Get_beam_N_e_pg=lambda bs, *a, **k: XArray((1, nPg, dof_n, n), [Nbeam[p][rr][j] for p in range(nPg) for rr in range(dof_n) for j in range(n)]),
                     Get_N_pg=lambda mt=None: XArray((nPg, 1, nPe), [Nl[p][m] for p in range(nPg) for m in range(nPe)]),
